@@ -630,7 +630,7 @@ func RunSequential(prog *Program, policy CapPolicy, entry string, maxSteps int64
 			case *Stuck:
 				o = Outcome{"stuck", e.Reason + " [in " + strings.Join(in.CallStack, " > ") + "]"}
 			case *Budget:
-				o = Outcome{"budget", ""}
+				o = Outcome{"budget", "in " + strings.Join(in.CallStack, " > ")}
 			case *Diverge:
 				o = Outcome{"diverge", ""}
 			case *Unsupported:
